@@ -24,7 +24,8 @@ def run(ctx):
     racy_strategies = set()
     for e in known:
         if e.get("status") == "open" and e.get("kind") == "data-race":
-            known_sites[e["site"]] = e
+            for site in e.get("sites", []):
+                known_sites[site] = e
             racy_strategies.update(e.get("strategies", []))
     diffs = st2.get("violations", [])
     st2["violations"] = []
